@@ -568,7 +568,7 @@ class C11(Spec):
 
     # bare integer entries as NumPy integers (x[np.int64(1)], x[:, np.int64(0)]): refused loudly by the code as found
     # (TypeError / ValueError) although NumPy accepts them; generated only when this is switched on (after fix 4).
-    NPIDX = bool(os.environ.get('C11_NPIDX'))
+    NPIDX = True        # NumPy-integer index entries: repaired by fix 167680b, demanded since
 
     def rand_rep(self, rng, c):
         """another spelling of the same arguments (hardening item 1/2); the model lines do not change."""
